@@ -302,6 +302,13 @@ header_end(void)
     for (i = 0; i + 7 <= ORIGLEN && i < 4096; i++)
         if (memcmp(ORIG + i, "endhdr\n", 7) == 0)
             return i + 7;
+    if (strcmp(TARGET, "mdef") == 0 && ORIGLEN > 12 && memcmp(ORIG, "BMDF", 4) == 0) {
+        /* binary model definition: magic, version, length of the format description, the description; the ten count words follow */
+        uint32_t n;
+        memcpy(&n, ORIG + 8, 4);
+        if (n < 65536 && 12 + (size_t)n < ORIGLEN)
+            return 12 + n;
+    }
     if (strcmp(TARGET, "sendump") == 0) {
         i = 0;
         while (i + 4 <= ORIGLEN) {
@@ -427,9 +434,10 @@ main(int argc, char **argv)
         add_fault(FK_TRUNC, i, 0);
     for (i = 1; i <= 16 && i < ORIGLEN; i++)
         add_fault(FK_TRUNC, ORIGLEN - i, 0);
-    /* 32-bit words of the first 256 payload bytes */
+    /* 32-bit words of the first 256 payload bytes; in the model definition only the ten count words: what follows them
+     * (phone names, the context tree) is data without a checksum, outside the fault model of the property */
     if (!IS_FEATPARAMS && strcmp(TARGET, "noisedict.txt") != 0)
-        for (i = he; i + 4 <= ORIGLEN && i < he + 256; i += 4) {
+        for (i = he; i + 4 <= ORIGLEN && i < he + (strcmp(TARGET, "mdef") == 0 ? 40 : 256); i += 4) {
             uint32_t v, vals[8];
             int k;
             memcpy(&v, ORIG + i, 4);
@@ -447,7 +455,7 @@ main(int argc, char **argv)
         }
     /* every single-bit flip of the first 16 payload words (where the dimension and count words of every format live) */
     if (!IS_FEATPARAMS && strcmp(TARGET, "noisedict.txt") != 0)
-        for (i = he; i + 4 <= ORIGLEN && i < he + 64; i += 4) {
+        for (i = he; i + 4 <= ORIGLEN && i < he + (strcmp(TARGET, "mdef") == 0 ? 40 : 64); i += 4) {
             uint32_t v;
             int b;
             memcpy(&v, ORIG + i, 4);
